@@ -288,7 +288,7 @@ func parseContracts(path string) (*Contracts, error) {
 				cl := &Clause{Kind: "apply", Expr: rest, Loop: -2, Line: ln}
 				cur.Clauses = append(cur.Clauses, cl)
 				last = cl
-			case "requires", "ensures", "captures", "creation", "assume", "lockinv":
+			case "requires", "ensures", "captures", "creation", "stores", "assume", "lockinv":
 				cl := &Clause{Kind: kw, Line: ln}
 				cl.Label, cl.Props, rest = parseLabel(rest)
 				cl.Expr = rest
